@@ -68,6 +68,8 @@ var (
 		{},
 		{""},
 		{":8443"},
+		// a host written as the name of a local interface stands for that interface's (first) IPv4 address
+		{"lo", "lo:8443", "h.example"},
 		{"h.example:x"},
 		{"h.example:"},
 		{"h.example", "i.example:x"},
@@ -390,7 +392,7 @@ type cfgPlan struct {
 	// C: HTTP listener rows (nil = the full product) and all SMB rows x these option rows, with rebuild
 	cListeners []Listener
 	cOptions   [][]int
-	desc     map[string]any
+	desc       map[string]any
 }
 
 func allRows(d []dim) [][]int {
